@@ -443,8 +443,51 @@ def import_histories(run, n=4):
         c18.repeated_import_case(run, run.rng, "nw" if k % 2 else "gbs")
 
 
+def edited_arguments(run, n=2):
+    """the caller passes the same array objects again after editing them in place (scanning a moment origin, moving points,
+    rescaling a density matrix): the second result is what fresh copies of the edited arrays give"""
+    from gbasis.evals import density as Dn
+    from gbasis.evals.electrostatic_potential import electrostatic_potential
+    rng = run.rng
+    ok = True
+    for k in range(n):
+        specs = random_basis(rng, 2, 2, lmax=2, exp_hi=10.0)
+        basis = make_basis(specs)
+        env = pf.default_env(rng, specs)
+        nb = sum(s_.size for s_ in specs)
+        gamma = random_symmetric(rng, nb, psd=True)
+        T = random_transform(rng, nb, rect=False)
+        calls = {
+            "moment_integral(origin edited)": (lambda a: pf.FUNCS["moment"][0](basis, pf.Env(origin=a, orders=env.orders)), env.origin, lambda a: a.__iadd__(0.75)),
+            "moment_integral(orders edited)": (lambda a: pf.FUNCS["moment"][0](basis, pf.Env(origin=env.origin, orders=a)), env.orders, lambda a: a.__iadd__(1)),
+            "evaluate_basis(points edited)": (lambda a: pf.FUNCS["evaluate_basis"][0](basis, pf.Env(points=a)), env.points, lambda a: a.__imul__(0.5)),
+            "evaluate_deriv_basis(points edited)": (lambda a: pf.FUNCS["evaluate_deriv_basis(1,0,2)"][0](basis, pf.Env(points=a)), env.points, lambda a: a.__iadd__(0.25)),
+            "point_charge_integral(positions edited)": (lambda a: pf.FUNCS["point_charge"][0](basis, pf.Env(charge_pos=a, charges=env.charges)), env.charge_pos, lambda a: a.__isub__(0.5)),
+            "point_charge_integral(charges edited)": (lambda a: pf.FUNCS["point_charge"][0](basis, pf.Env(charge_pos=env.charge_pos, charges=a)), env.charges, lambda a: a.__imul__(-2.0)),
+            "overlap_integral(transform edited)": (lambda a: pf.FUNCS["overlap"][0](basis, None, transform=a), T, lambda a: a.__imul__(1.5)),
+            "kinetic_energy_integral(transform edited)": (lambda a: pf.FUNCS["kinetic"][0](basis, None, transform=a), T, lambda a: a.__iadd__(0.125)),
+            "evaluate_density(density matrix edited)": (lambda a: Dn.evaluate_density(a, basis, env.points), gamma, lambda a: a.__imul__(0.5)),
+            "evaluate_density_gradient(density matrix edited)": (lambda a: Dn.evaluate_density_gradient(a, basis, env.points), gamma, lambda a: a.__imul__(3.0)),
+            "electrostatic_potential(points edited)": (lambda a: electrostatic_potential(basis, gamma, a, env.charge_pos, np.abs(env.charges)), env.points, lambda a: a.__iadd__(0.5)),
+        }
+        for name, (f, arr, edit) in calls.items():
+            run.case(("edited-argument", name, k))
+            run.count("same argument object passed again after an in-place edit")
+            r1 = f(arr)
+            edit(arr)
+            r2 = f(arr)
+            ref = f(arr.copy())
+            if r2.shape != ref.shape or not np.array_equal(r2, ref):
+                run.violation(f"{name}: the result for an argument array that was edited in place since the previous call differs from "
+                              f"the result for a fresh copy of it (max deviation {np.abs(r2 - ref).max() if r2.shape == ref.shape else float('nan'):.3e})",
+                              {"case": "edited-argument", "function": name, "signature": {"kind": "purity-edited-argument"}})
+                ok = False
+    return ok
+
+
 def check(run):
     quick = run.tier == "quick"
+    edited_arguments(run, 2 if quick else 8)
     lengths = [1, 2, 3, 5, 8, 13, 21, 30] if quick else [1, 2, 3, 4, 5, 6, 8, 10, 13, 16, 21, 25, 30] * 4
     for k, n in enumerate(lengths):
         history(run, n, k)
@@ -458,6 +501,9 @@ def check(run):
 
 def replay(run, rep):
     n0 = len(run.violations)
+    if rep.get("case") == "edited-argument":
+        edited_arguments(run, 6)
+        return len(run.violations) == n0
     if rep.get("case") == "helper-fresh":
         helper_freshness(run)
         return len(run.violations) == n0
